@@ -34,9 +34,9 @@ DEVIATIONS = {
 }
 
 SIZES = {
-    "quick": dict(chains=30, blocks=5, maxtxs=4, allcrash=False, sample=14, double=2,
+    "quick": dict(chains=30, blocks=5, maxtxs=4, allcrash=False, sample=14, double=2, big=1, bigmin=44, bigmax=60,
                   mc=["Indexer_mc.cfg", "Indexer_mc_b.cfg"]),
-    "thorough": dict(chains=120, blocks=8, maxtxs=5, allcrash=True, sample=0, double=5,
+    "thorough": dict(chains=120, blocks=8, maxtxs=5, allcrash=True, sample=0, double=5, big=4, bigmin=40, bigmax=80,
                      mc=["Indexer_mc.cfg", "Indexer_mc_b.cfg", "Indexer_mc_thorough.cfg", "Indexer_mc_thorough_b.cfg", "Indexer_mc_thorough_c.cfg"]),
 }
 
@@ -237,13 +237,17 @@ def check_c14(pid, tier, seed, replay):
         sz = SIZES[tier]
         d = w.sub("traces")
         args = ["c14", "-seed", str(seed), "-chains", str(sz["chains"]), "-blocks", str(sz["blocks"]), "-maxtxs", str(sz["maxtxs"]),
-                "-sample", str(sz["sample"]), "-double", str(sz["double"]), "-out", d]
+                "-sample", str(sz["sample"]), "-double", str(sz["double"]), "-big", str(sz["big"]), "-bigmin", str(sz["bigmin"]),
+                "-bigmax", str(sz["bigmax"]), "-out", d]
         if sz["allcrash"]:
             args.append("-allcrash")
         vlib.vh(args, cmd="vh_rpc")
         with open(os.path.join(d, "stats.json")) as f:
             stats = json.load(f)
         lines = vlib.read_lines(os.path.join(d, "trace.ndjson"))
+        if len(stats.get("bigBlocks") or []) < sz["big"]:
+            raise Infra("the driver recorded %s big blocks, %d wanted" % (stats.get("bigBlocks"), sz["big"]))
+        log("big blocks (Ethereum txs): %s; every crash point inside them: %d schedules" % (stats["bigBlocks"], stats["bigCrashPoints"]))
         log("recorded %d chains, %d blocks, %d Ethereum txs; %d schedules (%d crashes) and %d RPC queries; %d events" % (
             stats["chains"], stats["blocks"], stats["ethTxs"], stats["schedules"], stats["crashes"], stats["rpcQueries"], stats["events"]))
 
@@ -302,6 +306,7 @@ def check_c14(pid, tier, seed, replay):
         v.cov["samples"] = stats["pairs"][:6] + stats["viewShapes"][:6]
         v.cov["exhaustive"] = False  # the space of chains is sampled; see next field
         v.cov["every_single_crash_point_of_every_recorded_chain"] = bool(sz["allcrash"])
+        v.cov["big_blocks"] = {"ethereum_txs": stats["bigBlocks"], "crash_points_all_enumerated": stats["bigCrashPoints"]}
         v.cov["schedules"] = {"total": stats["schedules"], "crashes": stats["crashes"], "go_side_mismatch_with_uninterrupted_run": stats["goMismatch"]}
         st, sterr = self_test(w, remaining if final is not None else lines)
         if st is None and not v.violations:
